@@ -45,8 +45,8 @@ P = {
    text='Deductive part: ~240 obligations: nothing older than the call is written except the contents of label sets of the structure label_fair_states is applied to (the clone inside modelcheck); the results are new sets of states; compute_SCCs assumed. Bounded stand-in (decides): get_fair_states on every relation <=3 states x every F of <=2 subsets; fair modelcheck on small structures; three recorded findings (KF-C15-1..3) are recognised only when the output equals what the defect model predicts.', note='reference semantics trusted; fairness is largely known-defective on the pinned tree'),
  'C16': dict(level='exploration', ref='3/C16', tech='contract-based deductive verification (pyvc + z3) of the hash-consing table: find_isomorph (incl. the late-bound lambda), BDDNode.__reset__, BDDNonTerminalNode.__reset__/__new__ preserve the table invariant (parent sets consistent, reduced, no two registered non-terminals with the same (var,low,high)); GC histories and canonicity: representation-invariant scan after every step of random build/combine/drop/gc histories (bounded)',
    text='Deductive part: 96 obligations discharged for all creation histories without garbage collection (the invariant ranges over every node ever registered). GC interleavings, terminal nodes and "equal function iff same root" (Bryant canonicity, TB8) are decided by the bounded stand-in: seeded histories over pools of OBDDs with a scan of BDDNode.nodes() after every step.', note='WeakSet/GC semantics trusted (TB7)'),
- 'C17': dict(level='exploration', ref='3/C17', tech='denotational run-time contracts of apply/invert/restrict/variables + shape walk (ordered, reduced)',
-   text=B + 'expression pairs over <=4 variables, all orderings, all (v,b), truth tables on all assignments.', note='bounded'),
+ 'C17': dict(level='exploration', ref='3/C17', tech='contract-based deductive verification (pyvc + z3) of __invert__ (both node classes), cache_restrict/compute_restrict, apply/compute and the three decomposition helpers against the denoted Boolean function (ghost denotation maintained by the node constructor); orderedness, reducedness of results, variables() and the OBDD wrapper: denotational run-time contracts + shape walk (bounded)',
+   text='Deductive part: ~1,300 obligations: the result of ~f denotes the complement, of restrict the cofactor, of apply(op, f, g) op applied pointwise - for all nodes, all binary operators, all orderings and all cache contents that satisfy the cache invariant; result caches keyed by node identity handled by invariants; BDDTerminalNode.__new__ assumed. ' + B + 'expression pairs over <=4 variables, all orderings, all (v,b), truth tables on all assignments; ordered/reduced shape walk; variables(); ordering mismatches.', note='orderedness of results and the OBDD wrapper are bounded only; GC not modelled (TB7)'),
  'C18': dict(level='exploration', ref='3/C18', tech='run-time contracts of the OBDD parser functions and printers (lambda vs expression, synonyms, print round trip, error classes)',
    text=B + 'expressions to depth 4 over <=4 variables x argument orders; non-Boolean syntax list.', note='ast.parse trusted'),
  'C19': dict(level='exploration', ref='3/C19', tech='safety obligations (pyvc + z3: no KeyError/IndexError/StopIteration/AttributeError/RuntimeError can leave the function, callee preconditions hold) and "the result is a new set of states of the caller\'s structure" on the CTL labelling functions, CTL.modelcheck (with and without F), the LTL.modelcheck wrapper and the CTL* reduction; run-time contract (fresh caller-owned set of states of K, heterogeneous states/labels) decides the rest (bounded)',
@@ -102,7 +102,7 @@ def main():
 
 
 NA = {}
-PYVC = {'C01', 'C02', 'C03', 'C05', 'C07', 'C10', 'C13', 'C14', 'C15', 'C16', 'C19'}
+PYVC = {'C01', 'C02', 'C03', 'C05', 'C07', 'C10', 'C13', 'C14', 'C15', 'C16', 'C17', 'C19'}
 
 if __name__ == '__main__':
     main()
